@@ -91,7 +91,7 @@ CHECKS["C13"] = dict(
 CHECKS["C20"] = dict(
     engine="E4", category="model_checking", design="4/C20",
     technique="exhaustive enumeration of credentials against the daemon's real provider chain (admin token, config-file users with scrypt password hashes and AEAD session tokens, Unix-socket peer users) over an in-memory HTTP connection: login name variants x password variants, token mutations, admin-token variants, peer-user name variants, with a reference that knows the configured users",
-    text="Every (name variant x password variant) login for 7 configured users (among them two whose names coincide after NFKC normalisation, one with a role that forbids login, one with a capitalised name, one with a composed accent) and unknown names: succeeds exactly for a configured name with the matching password and a role permitting login, as that user with that role; the issued token has exactly that role's rights on three probes. Every truncation, single-bit flip, single-character substitution and a menu of re-encodings of two valid session tokens, admin-token variants, a token issued by a second instance (and this instance's token there): refused on every probe over both transports. Peer users: only the mapped names, verbatim. Audit records of accepted commands name the authenticated identity.",
+    text="Every (name variant x password variant) login for 7 configured users (among them two whose names coincide after NFKC normalisation, one with a role that forbids login, one with a capitalised name, one with a composed accent) and unknown names: succeeds exactly for a configured name with the matching password and a role permitting login, as that user with that role; the issued token has exactly that role's rights on three probes. Every truncation, single-bit flip, single-character substitution and a menu of re-encodings of two valid session tokens, every splice of the two (head of one, tail of the other, at every character and byte position), admin-token variants, a token issued by a second instance (and this instance's token there): refused on every probe over both transports. Peer users: only the mapped names, verbatim. Audit records of accepted commands name the authenticated identity.",
     note="OpenID Connect needs an external provider and is not exercised. The session key and nonces are random per instance; the verdicts do not depend on their values (a mutation that equals the genuine token is skipped). Passwords are compared after the trimming/NFKC normalisation which the hash generator itself applies.")
 
 CHECKS["C15"] = dict(
